@@ -76,13 +76,15 @@ Section Verify.
 
   (* v_issuer, v_max_iat, v_offset are the only configuration used;
      SetSignatureAlgorithm is a no-op on JWTTokenRequest, so alg is "" *)
-  Definition verify_jwt_assertion (v : verifier) (ks : keyset) (t : token) (m : middle) (now : Z) : outcome :=
+  (* deleg = the verifier was built with a SubjectCheck option that admits
+     sub <> iss (delegation); otherwise the default SubjectIsIssuer *)
+  Definition verify_jwt_assertion (deleg : bool) (v : verifier) (ks : keyset) (t : token) (m : middle) (now : Z) : outcome :=
     match m with
     | MidOk bytes c =>
         chk_audience c (v_issuer v) ;;
         chk_expiration c (v_offset v) now ;;
         chk_issued_at c (v_max_iat v) (v_offset v) now ;;
-        (if c_iss c =s c_sub c then None else Some ESubjectIssuer) ;;
+        (if deleg || (c_iss c =s c_sub c) then None else Some ESubjectIssuer) ;;
         match check_signature verify [] (bind_profile ks (c_iss c)) t bytes with
         | Err e => Reject e
         | Ok _ => Accept c ""
@@ -106,7 +108,8 @@ Section Verify.
 
   (* the five public entry points *)
   Inductive vkind :=
-  | VRpIDToken | VAccessToken | VIDTokenHint | VJWTAssertion
+  | VRpIDToken | VAccessToken | VIDTokenHint
+  | VJWTAssertion (deleg : bool)
   | VRequestObject (a : authreq).
 
   Definition run_verifier (k : vkind) (v : verifier) (ks : keyset) (t : token) (m : middle) (now : Z) : outcome :=
@@ -114,7 +117,7 @@ Section Verify.
     | VRpIDToken => verify_id_token verify v ks t m now
     | VAccessToken => verify_access_token v ks t m now
     | VIDTokenHint => verify_id_token_hint v ks t m now
-    | VJWTAssertion => verify_jwt_assertion v ks t m now
+    | VJWTAssertion d => verify_jwt_assertion d v ks t m now
     | VRequestObject a => parse_request_object a (v_issuer v) ks t m
     end.
 
@@ -122,12 +125,12 @@ Section Verify.
   Definition verifier_algs (k : vkind) (v : verifier) : list string :=
     match k with
     | VRpIDToken | VAccessToken | VIDTokenHint => v_algs v
-    | VJWTAssertion | VRequestObject _ => []
+    | VJWTAssertion _ | VRequestObject _ => []
     end.
   Definition verifier_keyset (k : vkind) (ks : keyset) (c : claims) : keyset :=
     match k with
     | VRpIDToken | VAccessToken | VIDTokenHint => ks
-    | VJWTAssertion | VRequestObject _ => bind_profile ks (c_iss c)
+    | VJWTAssertion _ | VRequestObject _ => bind_profile ks (c_iss c)
     end.
   (* claims handed back for decoded payload c *)
   Definition returned_claims (k : vkind) (c : claims) : claims :=
